@@ -30,6 +30,17 @@ pub fn strategy(tier: Tier, big_holes: bool) -> BS<Case> {
     let key = layout::xor_key().prop_map(|k| k.unwrap_or_else(|| vec![0x5a, 0x01, 0xff, 0x00, 0x80, 0x7f, 0x33, 0xc4]));
     (gen::chain(&crate::c03::chain_cfg(tier)), layout::layout(tier, false, big_holes), key, proptest::sample::select(ALL_CALLBACKS[1..].to_vec()))
         .prop_map(|(mut chain, mut layout, key, second)| {
+            // a key that turns Bitcoin's network magic into another coin's: meaningful on a Bitcoin directory only
+            if key.len() >= 4 {
+                let alias = u32::from_le_bytes([key[0], key[1], key[2], key[3]]) ^ vpmodel::chain::Coin::Bitcoin.magic();
+                if vpmodel::chain::ALL_COINS.iter().any(|c| c.magic() == alias) {
+                    chain.coin = vpmodel::chain::Coin::Bitcoin;
+                    chain.real_genesis = false;
+                    for b in chain.blocks.iter_mut() {
+                        b.auxpow = None;
+                    }
+                }
+            }
             // opreturn text must be fully specified by the model: only single-push OP_RETURN shapes
             for b in chain.blocks.iter_mut() {
                 for t in b.txs.iter_mut().chain(std::iter::once(&mut b.coinbase)) {
